@@ -15,7 +15,7 @@ COMMON_ASSUMPTIONS = [
     "applicable) and are trusted leaves; explicit sites there are inventoried",
 ]
 
-TOTAL_FLOORS = {"C15": 23, "C01": 28, "C02": 13, "C03": 7, "C05": 98, "C06": 36, "C07": 54, "C08": 11, "C09": 12, "C10": 5,
+TOTAL_FLOORS = {"C15": 15, "C01": 28, "C02": 13, "C03": 7, "C05": 98, "C06": 36, "C07": 54, "C08": 11, "C09": 12, "C10": 5,
                 "C13": 8, "C16": 30, "C17": 48, "C18": 6, "C20": 150}
 
 
@@ -167,7 +167,7 @@ def rules_C15(ctx):
 
 
 def rules_C16(ctx):
-    return total_for("C16", ctx) + overflow_for("C16", ctx) + [codec.run(ctx), codec.compact_modes(ctx), codec.rlp_headers(ctx),
+    return total_for("C16", ctx) + overflow_for("C16", ctx) + [codec.run(ctx), codec.compact_modes(ctx), codec.rlp_headers(ctx), codec.der_lengths(ctx),
                                                                structural.wf(ctx, marker_generic=False)]
 
 
